@@ -111,7 +111,8 @@ func fixFrameProperty(t *testing.T, pid, testName string, editKinds []string, ca
 		}
 		fr, _, err := readOne(in, di, readKey)
 		if err != nil {
-			t.Fatalf("BROKEN: generated frame not accepted: %v", err)
+			evid.ReplayNote(pid, testName, fmt.Sprintf("input %x\n%v", in, err))
+			t.Fatalf("a frame that is valid by the reference (checksum for the dialect's definition, payload in one of the encodings a reader accepts) is refused: %v (input %x)", err, in)
 		}
 		// the application edits the message
 		newLay := lay
